@@ -31,7 +31,8 @@ ASSUMPTIONS = [
     "after the dataset was resized or rebuilt (table grows by default rows / is reset); the model refuses it up front "
     "and the generators do not produce it (type mismatch is not one of the refusal causes the property lists)",
     "numeric-literal strings offered to numeric columns, integers beyond 2^53 offered to float columns, out-of-range "
-    "integers offered through write_column (NumPy wraps uint8 there) and NaN/inf are outside the modelled domain",
+    "integers offered through write_column (NumPy wraps uint8 there), out-of-range floats offered through "
+    "append_column (np.array casts silently) and NaN/inf are outside the modelled domain",
     "write_column takes homogeneous columns (np.array(column) would stringify a mixed one)",
     "unit strings are fixed points of units.sanitizer (C09 covers the sanitizer)",
     "OverflowError is canonicalised to ValueError, DuplicateColumnName to DuplicateName, h5py's OSError for an "
@@ -252,7 +253,8 @@ class Session:
         if op == "append_column":
             col = [py(v) for v in a[0]]
             dt = None if a[2] is None else np_type(a[2], pres % 3)     # "<U5" is a creation-only spelling
-            if pres % 2 and col and len({type(x) for x in col}) == 1 and not isinstance(col[0], str):
+            # (an ndarray column of another integer width would be cast silently by np.array(column, dtype))
+            if dt is None and pres % 2 and col and len({type(x) for x in col}) == 1 and not isinstance(col[0], str):
                 col = np.array(col)
             if dt is None and pres % 3 == 0:
                 df.append_column(col, a[1])
@@ -347,7 +349,7 @@ def gen_coerce(rng, t):
     return rng.choice([["b", rng.random() < 0.5], enc_float(x), enc_float(float(min(hi, 100)) + 0.75)])
 
 
-def gen_fault(rng, t, allow_text_fault, allow_overflow=True):
+def gen_fault(rng, t, allow_text_fault, allow_overflow=True, allow_float_overflow=True):
     """a cell the column type refuses (None when there is none for this type / op)"""
     if t == "text":
         if not allow_text_fault:
@@ -360,7 +362,9 @@ def gen_fault(rng, t, allow_text_fault, allow_overflow=True):
     lo, hi = RANGE[t]
     opts = [["s", rng.choice(BAD_NUM_STRS)]]
     if allow_overflow:
-        opts += [["i", hi + 1], ["i", lo - 1], ["i", hi + 1000], enc_float(float(hi) * 4 + 1000.5)]
+        opts += [["i", hi + 1], ["i", lo - 1], ["i", hi + 1000]]
+        if allow_float_overflow:
+            opts.append(enc_float(float(hi) * 4 + 1000.5))
     return rng.choice(opts)
 
 
@@ -526,7 +530,8 @@ def gen_op(rng, st, stats):
             elif what == "dup":
                 name = rng.choice(names)
             elif n and dt is not None:
-                bad = gen_fault(rng, t, allow_text_fault=True)
+                # np.array(column, dtype=int8) casts an out-of-range *float* silently (no OverflowError)
+                bad = gen_fault(rng, t, allow_text_fault=True, allow_float_overflow=False)
                 if bad is not None:
                     col[rng.randrange(n)] = bad
             count("." + what)
